@@ -17,9 +17,12 @@ def generate(tier, seed):
     al_ex = al if tier != "quick" else al
     obs = ["?ga:p", "?ga:g", "?wl"]
     lines = [["p", "p"] + r for r in p_rules()[:2]] + [["g", "g"] + g_rules()[0]]
-    for pre in ([], ["EN:1"], ["EN:0", "EN:1"], ["EN:1", "EN:1", "EN:0", "EN:1"], ["EN:0"]):
+    pr0 = p_rules()
+    for pre in ([], ["EN:1"], ["EN:0", "EN:1"], ["EN:1", "EN:1", "EN:0", "EN:1"], ["EN:0"],
+                # calls made WHILE notifications are off (they emit unconditionally or not at all), then on again
+                ["EN:0", "SV", "EN:1"], ["EN:0", "CL", "EN:1"], ["EN:0", A("p", "p", pr0[3]), "EN:1"], ["EN:0", "SV", "CL", "EN:1", "EN:1"]):
         for k in (1, 2):
-            if k == 2 and pre not in ([], ["EN:1"]):
+            if k == 2 and pre not in ([], ["EN:1"], ["EN:0", "SV", "EN:1"]):
                 continue
             for h in itertools.product(al_ex, repeat=k):
                 steps = list(obs)
